@@ -1110,7 +1110,8 @@ func genUnpack(r *rand.Rand, stream string) *Case {
 			c.Op = "unpack-tarball"
 			c.Ignore = r.Intn(4) != 0
 		}
-		if k == 17 {
+		if k == 17 || k == 0 || k == 3 || k == 9 {
+			// the prefix-confusion scenarios only mean something when the sibling sharing the prefix exists
 			c.EvilSibling = true
 		}
 		sc := scenario(r, k)
